@@ -137,9 +137,9 @@ func (e *m4Env) runBatchScenario(run *vlib.Run, caseIdx int, sc batchScenario) {
 			}
 		}
 	}
-	hung := func(what string) {
+	hung := func(what string, stacks []string) {
 		w := wit(what)
-		w["stacks"] = thunderStacks(base)
+		w["stacks"] = stacks
 		run.Count("m4:hangs", 1)
 		run.Violation(caseIdx, "", w)
 		remember()
@@ -211,7 +211,7 @@ func (e *m4Env) runBatchScenario(run *vlib.Run, caseIdx int, sc batchScenario) {
 			w["panic"], w["stack"] = rec.Value, rec.Stack
 			run.Violation(caseIdx, "", w)
 		case callHung:
-			hung("the call did not return after the cancellation and the process went quiet")
+			hung("the call did not return after the cancellation and the process went quiet", hangStacks())
 		case callUndecided:
 			run.Inconclusive(fmt.Sprintf("m4 case %d (%s): still busy at the hard deadline", caseIdx, sc.String()))
 		default:
@@ -236,15 +236,11 @@ func (e *m4Env) runBatchScenario(run *vlib.Run, caseIdx int, sc batchScenario) {
 	wsActivity := func() int64 { return activity() + atomic.LoadInt64(&sock.writes) }
 	wait := func(what string, cond func() bool) bool {
 		step("wait: " + what)
-		switch vlib.WaitCond(cond, wsActivity, time.Second, 10*time.Second) {
-		case vlib.Reached:
+		switch out, stacks := waitEntry(cond, wsActivity, "(*conn).ServeJSONSocket", time.Second, 10*time.Second); out {
+		case waitReached:
 			return true
-		case vlib.QuiescentNot:
-			if anyRunnable(nil) {
-				run.Inconclusive(fmt.Sprintf("m4 case %d (%s): still busy while waiting for: %s", caseIdx, sc.String(), what))
-				return false
-			}
-			hung("the connection went quiet before: " + what)
+		case waitStuck:
+			hung("the connection went quiet before: "+what, stacks)
 		default:
 			run.Inconclusive(fmt.Sprintf("m4 case %d (%s): still busy while waiting for: %s", caseIdx, sc.String(), what))
 		}
